@@ -339,3 +339,9 @@ def run(ctx):
     _c12.rule_OW3(Renamed(ctx, lambda r: 'C08.V4.clean' if r.startswith(
         'C12.OW3.clean') else 'C08.V4.clean'.rsplit('.', 1)[0] + '.clean_files'),
         _m, _c12.Effects(ctx, _m))
+    # gradient / jtvec apply the transposed volume average unless the grids
+    # are EQUAL: mesh equality has to compare both meshes (rule of C15)
+    from ..core.report import Filtered
+    from . import c15 as _c15
+    _c15.rule_equal_grids(Filtered(ctx, 'C15.VA1.identity',
+                                   'C08.V4.adjoint_grid'))
